@@ -128,6 +128,25 @@ def runner(rep, tier, seed, replay):
         if res.get("timed_out") or not ok:
             rep.violation("pair/dq", "`%s` with %s: argv %s" % (ln, c1["env"], [r.get("argv") for r in pa]),
                           {"case": c1, "form": "dq", "text": ln, "env": c1["env"]}, dict(c1["feat"], form="pair"))
+    # `$?` is the status of the command that ran LAST, also when that command stands earlier on the same line (a list is expanded
+    # command by command) - and `${?}`, and with text around it; in -c lines and in scripts
+    stl = []
+    for st in (0, 3, 255):
+        for lst, want in (("vmk Z1 %d ; vpa L $? R" % st, ["L", str(st), "R"]), ("vmk Z1 %d ; vpa \"${?}\"" % st, [str(st)]),
+                          ("vmk Z1 %d ; vpa x$?y ${?}z" % st, ["x%dy" % st, "%dz" % st]),
+                          ("vmk Z1 %d || vpa or$?" % st, ["or%d" % st] if st else None), ("vmk Z1 %d && vpa and$?" % st, ["and0"] if st == 0 else None),
+                          ("vmk Z1 5 ; vmk Z2 %d ; vpa $? '$?' \"$?\"" % st, [str(st), "$?", str(st)]),
+                          ("vmk Z1 %d | vmk Z2 7 ; vpa $?" % st, ["7"])):
+            for ent in ("c", "script"):
+                stl.append((lst, want, ent))
+    sres = run_cases([{"entry": e, "text": ln + ("\n" if e == "script" else ""), "timeout": 8, "want_files": False} for ln, _, e in stl])
+    for (ln, want, ent), res in zip(stl, sres):
+        rep.cov["evaluations"] += 1
+        pa = [r.get("argv") for r in res.get("log", []) if r.get("h") == "pa"]
+        if res.get("timed_out") or pa != ([want] if want is not None else []):
+            rep.violation("status-in-list", "`%s` (%s): argv %s, expected %s" % (ln, ent, pa, [want] if want is not None else []),
+                          {"case": {"word": "$?", "env": {}, "expected": "", "feat": {}}, "form": "status", "text": ln, "env": {}},
+                          {"form": "status-in-list", "self_ref": False, "value_has_dollar": False, "nrefs": 1})
     # ... and after `unset` a reference is empty, also when the name had both a shell-local and an exported value
     unset_cases = []
     for c in rnd.sample(hist, min(len(hist), 60 if tier == "quick" else 600)):
